@@ -26,11 +26,13 @@ end G
 abbrev Str := List Char
 
 inductive Err where
+  | lineCount (n : Nat)           -- TleParseError("Invalid TLE: expected 2 lines, got n.")
+  | eccentricity                  -- TleParseError("Eccentricity … can not be written in a TLE")
   | lineNumber                    -- TleParseError("Line number check failed")
   | size (line len : Nat)         -- TleParseError("Invalid TLE size on line …")
   | checksum (line : Nat)         -- TleParseError("TLE checksum validation failed on line …")
   | valueError                    -- ValueError raised by int() / float()
-  | indexError                    -- IndexError (text[1] of a one-line text, text[0] of an empty field in _float)
+  | indexError                    -- IndexError (text[0] of an empty field in _float)
   | outOfModel                    -- the model does not describe this input (never compared)
 deriving Repr, DecidableEq
 
@@ -111,14 +113,11 @@ def checkLines : Nat → List Str → Except Err Unit
 /-- `Tle._check_validity(text)` -/
 def checkValidity (text : List Str) : Except Err Unit :=
   match text with
-  | [] => .error .indexError
-  | t0 :: rest =>
+  | t0 :: t1 :: _ =>
     if !startsWith (lstrip t0) ['1', ' '] then .error .lineNumber
-    else match rest with
-      | [] => .error .indexError
-      | t1 :: _ =>
-        if !startsWith (lstrip t1) ['2', ' '] then .error .lineNumber
-        else checkLines 0 text
+    else if !startsWith (lstrip t1) ['2', ' '] then .error .lineNumber
+    else checkLines 0 text
+  | _ => .error (.lineCount text.length)
 
 /-! ## numbers read from text -/
 
@@ -168,27 +167,27 @@ def rfind (s : Str) (c : Char) : Option Nat :=
   | some i => some (s.length - 1 - i)
   | none => none
 
+/-- second half of `_float`: `text` already carries its sign and the decimal point -/
+def tleFloatSigned (text : Str) : Except Err Dec :=
+  let tail := text.drop 1
+  if tail.contains '+' || tail.contains '-' then
+    let sep := if tail.contains '+' then '+' else '-'
+    match rfind text sep with
+    | none => .error .outOfModel
+    | some k =>
+      let value := text.take k
+      let expo := text.drop (k + 1)
+      -- float(f"{value}e{exp_sign}{expo}"): the string starts with a sign and ends with `expo`, nothing is stripped inside
+      match pyFloatCore value, digitsVal expo with
+      | .ok d, some x => .ok { d with scale := if sep = '-' then d.scale + x else d.scale - x }
+      | _, _ => .error .valueError
+  else pyFloat text
+
 /-- `_float(text)`: "decimal point assumed" fields -/
 def tleFloat (text : Str) : Except Err Dec :=
-  let text := strip text
-  match text with
+  match strip text with
   | [] => .error .indexError
-  | c0 :: tl =>
-    let text : Str := if c0 = '-' || c0 = '+' then c0 :: '.' :: tl else '+' :: '.' :: text
-    let tail := text.drop 1
-    if tail.contains '+' || tail.contains '-' then
-      let sep := if tail.contains '+' then '+' else '-'
-      match rfind text sep with
-      | none => .error .outOfModel
-      | some k =>
-        let value := text.take k
-        let expo := text.drop (k + 1)
-        -- float(f"{value}e{exp_sign}{expo}"): the string starts with a sign and ends with `expo`, nothing is stripped inside
-        match pyFloatCore value, digitsVal expo with
-        | .ok d, some x => .ok { d with scale := if sep = '-' then d.scale + x else d.scale - x }
-        | .error .valueError, _ => .error .valueError
-        | _, _ => .error .valueError
-    else pyFloat text
+  | c0 :: tl => tleFloatSigned (if c0 = '-' || c0 = '+' then c0 :: '.' :: tl else '+' :: '.' :: c0 :: tl)
 
 /-! ## `Tle.__init__` -/
 
@@ -235,14 +234,11 @@ def epochMicros (d : Dec) : Int :=
   if d.scale ≥ 0 then roundDiv ((m - (10 : Int) ^ d.scale.toNat) * 86400000000) (10 ^ d.scale.toNat)
   else (m * (10 : Int) ^ (-d.scale).toNat - 1) * 86400000000
 
-def parseTle (lines : List Str) : Except Err Parsed := do
-  let (name, text) : Str × List Str :=
-    match lines with
-    | [n, a, b] =>
-      let n := strip n
-      (if startsWith n ['0', ' '] then n.drop 2 else n, [a, b])
-    | _ => ([], lines)
+/-- `Tle.__init__` after the name line has been taken off: validity, then the columns -/
+def parseBody (text : List Str) : Except Err Parsed := do
   checkValidity text
+  -- the columns are read from the stripped lines (the ones that were validated); they are also what `str(tle)` shows
+  let text := text.map strip
   match text with
   | first :: second :: _ =>
     let norad ← pyInt (slice first G.norad)
@@ -267,8 +263,19 @@ def parseTle (lines : List Str) : Except Err Parsed := do
     let argp ← pyFloat (slice second G.argp)
     let ma ← pyFloat (slice second G.ma)
     let mm ← pyFloat (slice second G.mm)
-    pure { name, text, norad, classification, cospar, year, epochUs := epochMicros day, ndot, ndd, bstar, elnb, revs, etype, inc, raan, ecc, argp, ma, mm }
+    pure { name := [], text, norad, classification, cospar, year, epochUs := epochMicros day, ndot, ndd, bstar, elnb, revs, etype, inc, raan, ecc, argp, ma, mm }
   | _ => .error .indexError
+
+/-- `self.name`: the first of three lines, stripped, without a leading `"0 "` -/
+def nameOf (n : Str) : Str :=
+  let n := strip n
+  if startsWith n ['0', ' '] then n.drop 2 else n
+
+/-- `Tle(lines)` -/
+def parseTle (lines : List Str) : Except Err Parsed :=
+  match lines with
+  | [n, a, b] => (parseBody [a, b]).map (fun p => { p with name := nameOf n })
+  | _ => parseBody lines
 
 /-! ## what is written -/
 
@@ -276,6 +283,7 @@ def parseTle (lines : List Str) : Except Err Parsed := do
 inductive Unfl where
   | zero
   | val (neg : Bool) (m5 : Nat) (exp : Int)
+  | small (neg : Bool) (digits : Nat)     -- below 1e-10: `± 0.digits · 10^-9`, mantissa not normalised
 deriving Repr, DecidableEq
 
 /-- integers of the printed unit, as `Tle.from_orbit` formats them -/
@@ -326,7 +334,10 @@ def toUnfl (d : Dec) : Unfl :=
   if d.mant = 0 then .zero
   else
     let (m5, sh) := sig5 d.mant
-    .val d.neg m5 (sh + 5 - d.scale)
+    let exp := sh + 5 - d.scale
+    -- `if exp + 1 < -9: digits = round(abs(flt) * 10 ** (9 + precision))`
+    if exp < -9 then .small d.neg (decScaled ⟨false, d.mant, d.scale⟩ 14).toNat
+    else .val d.neg m5 exp
 
 /-- an angle in degrees, `% 360`, in units of 1e-4 degree -/
 def angle4 (d : Dec) : Except Err Nat :=
@@ -364,6 +375,7 @@ def unfloat : Unfl → Str
   | .zero => ['0', '0', '0', '0', '0', '-', '0']
   | .val neg m5 exp =>
     (if neg then ['-'] else []) ++ natStr m5 ++ (if exp < 0 then '-' :: natStr exp.natAbs else '+' :: natStr exp.natAbs)
+  | .small neg digits => (if neg then ['-'] else []) ++ padLeft '0' 5 (natStr digits) ++ ['-', '9']
 
 /-- `"{:w.pf}"` of a non-negative number given in units of `10^-p` -/
 def fmtFix (zero : Bool) (w p : Nat) (v : Nat) : Str :=
@@ -413,6 +425,8 @@ def render (r : Rec) : List Seg → Option Str
 
 /-- the text handed to `cls(...)` at the end of `from_orbit` (name line, line 1, line 2) -/
 def writeRec (r : Rec) : Except Err (List Str) :=
+  -- `if not "{:.7f}".format(e).startswith("0."): raise TleParseError`
+  if natStr (r.ecc7 / 10000000) ≠ ['0'] then .error .eccentricity else
   match render r G.fmt1, render r G.fmt2 with
   | some b1, some b2 =>
     match checksum b1, checksum b2 with
@@ -453,7 +467,9 @@ structure FsState where
 def fsStep (st : FsState) (line : Str) : FsState :=
   if st.abort.isSome then st
   else if (strip line).isEmpty || startsWith line ['#'] then st
-  else if startsWith line ['1', ' '] then { st with cache := st.cache ++ [line] }
+  else if startsWith line ['1', ' '] then
+    -- `cache = [x for x in cache[-1:] if not x.startswith("1 ")]; cache.append(line)`
+    { st with cache := (st.cache.getLast?.toList.filter (fun x => !startsWith x ['1', ' '])) ++ [line] }
   else if startsWith line ['2', ' '] then
     match parseTle (st.cache ++ [line]) with
     | .ok p => { st with cache := [], out := st.out ++ [p] }
